@@ -220,6 +220,14 @@ def handle (d : D) (line : String) : D × String :=
   | ["drain"] =>
     let (st', o) := step st .drain
     ({ d with st := some st' }, fmtFeeds o.feeds)
+  | ["drain1", sid] =>
+    match sid.toNat? with
+    | some id =>
+      if d.sids.contains id then
+        let (st', o) := step st (.drainOne id)
+        ({ d with st := some st' }, fmtFeeds o.feeds)
+      else bad
+    | none => bad
   | ["hook", hid, qid, pg, og, pp] =>
     match hid.toNat?, d.queries.find? (·.1 == qid), parseBeh false pg, parseBeh true og, parseBeh true pp with
     | some id, some (_, q), some bpg, some bog, some bpp =>
